@@ -495,7 +495,7 @@ def run_C10(ctx):
                             SliceTuples="RandomSubset(%d, %s)" % (6 if q else 20, FIELD_TUPLES))
     ctx.tlc_phase("fields", "Session", consts, invariants=["Refines", "Closed"], constraint="SmallEnough", seed_tlc=True,
                   require_actions=["SliceOp", "SetFieldOp", "WrapRecord", "ToListOp"])
-    ctx.pychain_phase("python-chains-code-to-spec", (4000 if ctx.quick() else 60000), 5, ops={"zip", "field", "withfield", "withfield_b", "withslot"})
+    ctx.pychain_phase("python-chains-code-to-spec", (4000 if ctx.quick() else 60000), 5, ops={"zip", "unzip", "field", "withfield", "withfield_b", "withslot"})
     return ctx.finish(assumptions=["ak.zip/unzip/with_field broadcasting are Python-layer functions (L2); here the C++ API below them: "
                                    "getitem_field(s), field projections inside slices, setitem_field",
                                    "index-like keys ('0') on named records and projections through unions are Unspec"])
